@@ -46,6 +46,9 @@ func (m *Mutex) Lock() {
 		m.real.Lock()
 		return
 	}
+	if s.aborting.Load() {
+		return
+	}
 	t := s.me()
 	if t == nil {
 		return
